@@ -662,14 +662,32 @@ func init() {
 					jobs = append(jobs, j)
 				}
 			}
+			// the statement itself on two Readline sessions: record + call versus typing twice
+			type scfg struct{ k, n int }
+			scfgs := []scfg{{1, 0}, {1, 4}, {2, 4}}
+			if tier == "thorough" {
+				scfgs = append(scfgs, scfg{2, 0}, scfg{2, 6}, scfg{3, 4})
+			}
+			for _, c := range scfgs {
+				for _, style := range []string{"emacs", "vi"} {
+					j := mkJob(".ZZ_C18_Session", ".ZZSetup_TwoShellsWrapped", "style", style, "k", itoa(c.k), "n", itoa(c.n))
+					j.Stubs = paintStubs
+					j.Reach = []string{"both-ran"}
+					jobs = append(jobs, j)
+				}
+			}
 			return jobs
 		},
+		IgnoreKinds: []string{"panic", "hang", "spin", "deadlock"},
 		Assumptions: []string{
 			"recorded keys are k symbolic ASCII bytes (0x00-0x7F: printable, control, ESC, quotes, backslash); they are recorded through core.MatchedKeys + macro.RecordKeys exactly as the main loop does once per resolved key, stored by StopRecord and replayed by RunLastMacro (emacs style) or RunMacro('a') (vi style); the replayed keys are read back with core.PopKey",
 			"non-ASCII keys are outside this check (C02 records that non-ASCII input is dropped before it reaches a command)",
+			"session jobs (ZZ_C18_Session): two shells; the first n characters of 'ab c.d' are typed (vi: in insert mode, then ESC), then shell A gets C-x ( K C-x ) C-x e (vi: q a K q @ a) and shell B gets K K, every key in a read of its own; K = k symbolic ASCII bytes; compared: returned line and error, or buffer, cursor, main and local keymap at the wait after the last key",
+			"K is a script of complete commands that leaves the macro keys meaningful: after K no command waits for an argument key, no operator for a motion, no prefix for its next key, no search minibuffer is open, the main keymap is unchanged and no local keymap is active; K does not contain the macro keys themselves (C-x in emacs; q, @ in vi); in vi ESC is allowed as last key only (a lone ESC differs from an ESC prefix by timing only, which a macro does not record)",
+			"panics and hangs met on the way are C01's subject and ignored here",
 		},
-		Stubs:  []string{"unicode.IsPrint/ToUpper exact formulas; fmt %x model"},
-		Bounds: map[string]string{"quick": "k <= 2 keys", "thorough": "k <= 3 keys"},
+		Stubs:  append([]string{"unicode.IsPrint/ToUpper exact formulas; fmt %x model"}, paintStubs...),
+		Bounds: map[string]string{"quick": "unit: k <= 2 keys; sessions: k = 1 on an empty and a 4-character buffer, k = 2 on a 4-character buffer", "thorough": "unit: k <= 3 keys; sessions: k <= 2 on buffers of 0, 4, 6 characters, k = 3 on 4 characters"},
 		Rule:   "one state per completed symbolic path",
 	}
 }
